@@ -1,5 +1,5 @@
 // shared by units semver_to_zerv and semver_from_zerv (included inside verus!{} after the extracted Var / Component / ZervVars / Zerv / SemVer types and a
-// definition of label_text); specification only, nothing trusted: the statement's canonical SemVer shape and the Zerv object it stands for (C07)
+// definition of label_text and of default_core); specification only, nothing trusted: the statement's canonical SemVer shape and the Zerv object it stands for (C07)
 
 /// a schema component as the statement sees it: a variable, a number, or a literal text
 pub enum CView { Var(Var), UInt(u64), Str(Seq<char>) }
@@ -8,7 +8,6 @@ pub open spec fn cview(c: Component) -> CView {
 }
 pub open spec fn cviews(s: Seq<Component>) -> Seq<CView> { s.map_values(|c: Component| cview(c)) }
 
-pub open spec fn default_core() -> Seq<Component> { seq![Component::Var(Var::Major), Component::Var(Var::Minor), Component::Var(Var::Patch)] }
 pub open spec fn build_literal(m: BuildMetadata) -> CView { match m { BuildMetadata::Str(s) => CView::Str(s@), BuildMetadata::UInt(n) => CView::UInt(n) } }
 pub open spec fn build_literals(b: Seq<BuildMetadata>, n: int) -> Seq<CView>
     decreases n
@@ -38,7 +37,7 @@ pub open spec fn matches_canon(ids: Seq<PreReleaseIdentifier>, c: Seq<CanonId>) 
 /// v has the canonical shape with these slots
 pub open spec fn canonical(v: SemVer, e: Option<u64>, pre: Option<(PreReleaseLabel, u64)>, p: Option<u64>, d: Option<u64>) -> bool {
     match v.pre_release {
-        Some(ids) => (e is Some || pre is Some || p is Some || d is Some) && matches_canon(ids@, canonical_ids(e, pre, p, d)),
+        Some(ids) => matches_canon(ids@, canonical_ids(e, pre, p, d)),
         None => e is None && pre is None && p is None && d is None,
     }
 }
@@ -63,3 +62,17 @@ pub open spec fn is_canonical_zerv_of(z: Zerv, v: SemVer, e: Option<u64>, pre: O
 }
 
 
+
+// ---- the Zerv object of a PEP 440 version with at most three release numbers, by its slots (what PEP440::to_zerv_with_schema is proved to return, unit
+// pep440_from_zerv; what SemVer::from is proved to turn into the canonical shape, unit semver_from_zerv)
+pub open spec fn default_extra4() -> Seq<CView> { seq![CView::Var(Var::Epoch), CView::Var(Var::PreRelease), CView::Var(Var::Post), CView::Var(Var::Dev)] }
+pub open spec fn is_pep_shaped_zerv(z: Zerv, mj: u64, mn: Option<u64>, pt: Option<u64>, e: Option<u64>, pre: Option<(PreReleaseLabel, u64)>, p: Option<u64>, d: Option<u64>,
+    b: Seq<BuildMetadata>) -> bool
+{
+    &&& z.vars.major == Some(mj) && z.vars.minor == mn && z.vars.patch == pt && (mn is None ==> pt is None)
+    &&& z.vars.epoch == e && z.vars.post == p && z.vars.dev == d
+    &&& z.vars.pre_release == (match pre { Some(ln) => Some(PreReleaseVar { label: ln.0, number: Some(ln.1) }), None => None })
+    &&& z.schema.core_view() =~= default_core()
+    &&& cviews(z.schema.extra_view()) =~= default_extra4()
+    &&& cviews(z.schema.build_view()) =~= build_literals(b, b.len() as int)
+}
